@@ -1,6 +1,353 @@
-//! C14 — stub (to be written; see /verif/harness/AUTHORING.md and DESIGN.md §3 C14)
-use vengine::Property;
+//! C14 — decision trees are well-formed, honour their limits and predict leaf majorities.
+//!
+//! A case is a labelled dataset in integer codes (see `case.rs`) plus hyper-parameters. The check
+//! fits `linfa_trees::DecisionTree`, copies the public tree into plain data (`run.rs`) and re-derives
+//! every obligation of the statement from the training data with naive code (`oracle.rs`): training
+//! rows are routed with the prediction rule, per-node row sets give counts, weights, impurities,
+//! modes; `predict` is compared with that routing; importances are recomputed.
+
+pub mod case;
+pub mod oracle;
+pub mod run;
+
+use case::{adj_above_guard, Case, Col, LabelKind};
+use proptest::prelude::*;
+use vengine::{enum_sub, prop_sub, Obs, Property, Tier};
+
+// ------------------------------------------------------------------------------------------------
+// check function
+
+fn classify(c: &Case, obs: &mut Obs) {
+    obs.class(match c.max_depth {
+        None => "max_depth_none",
+        Some(0) => "max_depth_0",
+        Some(_) => "max_depth_finite",
+    });
+    obs.class(if c.entropy { "entropy" } else { "gini" });
+    obs.class(if c.f32_ { "f32" } else { "f64" });
+    obs.class(match c.label {
+        LabelKind::Usize => "label_usize",
+        LabelKind::Bool => "label_bool",
+        LabelKind::Str => "label_string",
+    });
+    obs.class(if c.weights.is_some() { "weighted" } else { "unweighted" });
+    obs.class_if(c.cols.iter().any(|k| matches!(k, Col::Const(_))), "constant_feature");
+    obs.class_if(c.cols.iter().any(|k| matches!(k, Col::Fine)), "fine_grid_feature");
+    obs.class_if(c.has_adjacent(), "adjacent_floats");
+    obs.class_if(
+        c.cols.iter().any(|k| matches!(k, Col::Adj { base } if !adj_above_guard(*base))),
+        "adjacent_floats_below_guard",
+    );
+    obs.class_if(c.n() == 1, "n_1");
+    obs.class_if(c.n() > 60, "n_large");
+    let x = c.x();
+    let mut conflict = false;
+    'o: for i in 0..c.n() {
+        for j in 0..i {
+            if x[i] == x[j] && c.y.get(i) != c.y.get(j) {
+                conflict = true;
+                break 'o;
+            }
+        }
+    }
+    obs.class_if(conflict, "duplicates_conflicting_labels");
+    let mut ids: Vec<u8> = c.y.clone();
+    ids.sort_unstable();
+    ids.dedup();
+    obs.class(match ids.len() {
+        0 | 1 => "classes_1",
+        2 => "classes_2",
+        _ => "classes_3plus",
+    });
+    obs.class_if(c.min_weight_leaf >= 2.0, "min_weight_leaf_ge_2");
+    obs.class_if(c.min_weight_split >= 5.0, "min_weight_split_ge_5");
+    obs.class_if(c.min_impurity_decrease >= 0.1, "min_impurity_decrease_large");
+}
+
+pub fn check(c: &Case, obs: &mut Obs) {
+    // malformed stored cases (hand-edited replay files) are not judged
+    if c.n() == 0 || c.p() == 0 || c.y.len() != c.n() || c.codes.iter().any(|r| r.len() != c.p()) {
+        obs.skip("malformed_case");
+        return;
+    }
+    if !(c.min_weight_leaf > 0.0) || !(c.min_impurity_decrease >= 1e-6) {
+        obs.skip("outside_domain");
+        return;
+    }
+    classify(c, obs);
+    if let Some(fit) = run::run(c, obs) {
+        oracle::judge(c, &fit, obs);
+    }
+}
+
+// ------------------------------------------------------------------------------------------------
+// generators
+
+#[derive(Clone, Copy, Debug, PartialEq)]
+enum Family {
+    /// small grids, constant and fine-grid columns; every max_depth
+    Grid,
+    /// at least one column of consecutive floats; finite max_depth
+    AdjFinite,
+    /// at least one column of consecutive floats; max_depth(None)
+    AdjUnbounded,
+}
+
+fn col_strategy(fam: Family, first: bool) -> BoxedStrategy<Col> {
+    let grid = prop_oneof![
+        4 => Just(Col::Grid { quarters: 4 }),
+        2 => Just(Col::Grid { quarters: 2 }),
+        1 => Just(Col::Grid { quarters: 1 }),
+    ];
+    let adj = (0u8..6).prop_map(|base| Col::Adj { base });
+    match fam {
+        Family::Grid => prop_oneof![
+            7 => grid,
+            2 => (-2i8..=2).prop_map(Col::Const),
+            1 => Just(Col::Fine),
+        ]
+        .boxed(),
+        _ if first => (0u8..4).prop_map(|base| Col::Adj { base }).boxed(),
+        _ => prop_oneof![
+            3 => adj,
+            2 => grid,
+            1 => (-2i8..=2).prop_map(Col::Const),
+        ]
+        .boxed(),
+    }
+}
+
+#[derive(Clone, Debug)]
+struct RawRow {
+    codes: Vec<u8>,
+    noise: u8,
+    flip: u8,
+    weight: u8,
+}
+
+fn case_strategy(fam: Family, tier: Tier) -> impl Strategy<Value = Case> {
+    let nmax: BoxedStrategy<usize> = match (fam, tier) {
+        (Family::Grid, Tier::Quick) => prop_oneof![2 => Just(8usize), 4 => Just(25), 3 => Just(60)].boxed(),
+        (Family::Grid, Tier::Thorough) => {
+            prop_oneof![4 => Just(8usize), 8 => Just(25), 6 => Just(60), 1 => Just(300)].boxed()
+        }
+        (_, Tier::Quick) => prop_oneof![2 => Just(5usize), 3 => Just(12)].boxed(),
+        (_, Tier::Thorough) => prop_oneof![2 => Just(5usize), 3 => Just(12), 1 => Just(40)].boxed(),
+    };
+    let rows = nmax.prop_flat_map(|m| {
+        proptest::collection::vec(
+            (proptest::collection::vec(any::<u8>(), 4), any::<u8>(), any::<u8>(), 0u8..4)
+                .prop_map(|(codes, noise, flip, weight)| RawRow { codes, noise, flip, weight }),
+            1..=m,
+        )
+    });
+    let cols = (
+        col_strategy(fam, true),
+        col_strategy(fam, false),
+        col_strategy(fam, false),
+        col_strategy(fam, false),
+    );
+    let depth: BoxedStrategy<Option<u8>> = match fam {
+        Family::Grid => prop_oneof![
+            3 => Just(None),
+            1 => Just(Some(0u8)),
+            2 => Just(Some(1)),
+            2 => Just(Some(2)),
+            1 => Just(Some(3)),
+            2 => Just(Some(5)),
+        ]
+        .boxed(),
+        Family::AdjFinite => prop_oneof![
+            1 => Just(Some(0u8)),
+            2 => Just(Some(1)),
+            2 => Just(Some(2)),
+            2 => Just(Some(3)),
+            2 => Just(Some(5)),
+            1 => Just(Some(12)),
+        ]
+        .boxed(),
+        Family::AdjUnbounded => Just(None).boxed(),
+    };
+    let hyper = (
+        any::<bool>(),
+        depth,
+        prop_oneof![3 => Just(1f32), 5 => Just(2f32), 2 => Just(5f32), 1 => Just(10f32)],
+        prop_oneof![3 => Just(0.5f32), 5 => Just(1f32), 2 => Just(2f32), 1 => Just(5f32)],
+        prop_oneof![5 => Just(1e-5f64), 2 => Just(0.01f64), 1 => Just(0.2f64)],
+    );
+    let shape = (
+        1usize..=4,                                                                  // p
+        prop_oneof![2 => Just(1usize), 3 => Just(2), 2 => Just(3), 1 => Just(6)],    // code range R (grid) – 7 for adjacent
+        2u8..=6,                                                                     // classes
+        prop_oneof![Just(LabelKind::Usize), Just(LabelKind::Bool), Just(LabelKind::Str)],
+        0u8..4,                                                                      // label mode
+        any::<bool>(),                                                               // weighted
+        any::<bool>(),                                                               // f32
+    );
+    let queries = proptest::collection::vec(proptest::collection::vec(any::<u8>(), 4), 0..=5);
+    (rows, cols, hyper, shape, queries).prop_map(move |(rows, cols, hyper, shape, queries)| {
+        let (p, r, k, label, ymode, weighted, f32_) = shape;
+        let k = if label == LabelKind::Bool { 2 } else { k };
+        let cols: Vec<Col> = [cols.0, cols.1, cols.2, cols.3][..p].to_vec();
+        let range = |c: &Col| -> usize {
+            match c {
+                Col::Adj { .. } => 8,
+                Col::Fine => 7,
+                _ => r + 1,
+            }
+        };
+        let codes: Vec<Vec<u8>> = rows
+            .iter()
+            .map(|row| (0..p).map(|j| ((row.codes[j] as usize * range(&cols[j])) >> 8) as u8).collect())
+            .collect();
+        // labels: pure noise, or a function of the codes (deep, learnable trees) with a little noise
+        let y: Vec<u8> = rows
+            .iter()
+            .zip(&codes)
+            .map(|(row, cd)| {
+                let noise = ((row.noise as usize * k as usize) >> 8) as u8;
+                let noisy = row.flip < 40;
+                let base = match ymode {
+                    0 => noise,
+                    1 => cd[0] % k,
+                    2 => (cd[0] + cd[p - 1]) % k,
+                    _ => ((cd[0] / 2) + 2 * (cd[p - 1] % 2)) % k,
+                };
+                if noisy {
+                    noise
+                } else {
+                    base
+                }
+            })
+            .collect();
+        let weights = if weighted { Some(rows.iter().map(|r| r.weight).collect()) } else { None };
+        let (entropy, max_depth, min_weight_split, min_weight_leaf, min_impurity_decrease) = hyper;
+        let queries: Vec<Vec<u8>> = queries
+            .iter()
+            .map(|qr| {
+                (0..p)
+                    .map(|j| {
+                        let span = match cols[j] {
+                            Col::Adj { .. } => 10,
+                            Col::Fine => 14,
+                            Col::Const(_) => 5,
+                            Col::Grid { .. } => 2 * r + 4,
+                        };
+                        ((qr[j] as usize * span) >> 8) as u8
+                    })
+                    .collect()
+            })
+            .collect();
+        Case {
+            f32_,
+            cols,
+            codes,
+            y,
+            label,
+            weights,
+            entropy,
+            max_depth,
+            min_weight_split,
+            min_weight_leaf,
+            min_impurity_decrease,
+            queries,
+        }
+    })
+}
+
+/// exhaustive small stratum: every dataset with one feature, n <= N rows, `vals` distinct values and
+/// `labs` labels; hyper-parameters cycle deterministically through a fixed table.
+fn enumerate(col: Col, vals: u8, labs: u8, nmax: usize, depths: &[Option<u8>], both_types: bool) -> Vec<Case> {
+    let mut out = vec![];
+    let cell = (vals as usize) * (labs as usize);
+    let mut counter = 0usize;
+    for n in 1..=nmax {
+        let total = cell.pow(n as u32);
+        for code in 0..total {
+            let mut rest = code;
+            let mut codes = vec![];
+            let mut y = vec![];
+            for _ in 0..n {
+                let d = rest % cell;
+                rest /= cell;
+                codes.push(vec![(d % vals as usize) as u8]);
+                y.push((d / vals as usize) as u8);
+            }
+            // rows are exchangeable for every obligation except presorting order: keep all orders
+            let h = counter;
+            counter += 1;
+            let mws = [1f32, 2.0, 2.0, 5.0][h % 4];
+            let mwl = [1f32, 0.5, 2.0][(h / 4) % 3];
+            let mid = [1e-5f64, 0.01, 0.2, 1e-5][(h / 12) % 4];
+            let weights = if (h / 48) % 2 == 1 {
+                Some((0..n).map(|i| ((h / 96 + i * 3) % 4) as u8).collect())
+            } else {
+                None
+            };
+            out.push(Case {
+                f32_: if both_types { (h / 7) % 2 == 0 } else { true },
+                cols: vec![col],
+                codes,
+                y,
+                label: [LabelKind::Usize, LabelKind::Str, LabelKind::Bool][if labs == 2 { h % 3 } else { h % 2 }],
+                weights,
+                entropy: (h / 3) % 2 == 1,
+                max_depth: depths[h % depths.len()],
+                min_weight_split: mws,
+                min_weight_leaf: mwl,
+                min_impurity_decrease: mid,
+                queries: vec![vec![(h % 8) as u8], vec![((h / 8) % 8) as u8]],
+            });
+        }
+    }
+    out
+}
 
 pub fn property() -> Property {
-    Property { id: "C14", rule: "", assumptions: vec![], subs: vec![] }
+    Property {
+        id: "C14",
+        rule: "case = labelled dataset in integer codes (n 1..=60, thorough <=300; p 1..=4; columns: small grids with step 1/0.5/0.25, constant, \
+               fine grid around linfa's 1e-5 equal-value guard, consecutive floats f32>=128 / f64>=2^37 whose midpoint rounds onto a sample), \
+               2..=6 classes as usize/bool/String, labels random or a noisy function of the features, optional dyadic weights, both criteria, \
+               max_depth None/0/1/2/3/5(/12), min_weight_split 1/2/5/10, min_weight_leaf 0.5/1/2/5, min_impurity_decrease 1e-5/0.01/0.2, \
+               plus query rows on half steps; exhaustive one-feature strata (3 values x 3 labels, n<=4; 4 consecutive floats x 2 labels, n<=4). \
+               Non-trivial = fitted tree has >= 2 split nodes, or a reached leaf has a weighted tie for the mode, or the case contains a \
+               consecutive-float column above the guard; distinct = distinct canonical JSON of the case",
+        assumptions: vec![
+            "min_weight_leaf = 0 (assert inside gini_impurity), min_impurity_decrease < epsilon (rejected by check()), NaN/inf features and empty datasets are outside the generated domain".into(),
+            "min_weight_split is compared with the number of training rows reaching a node (as the statement says), not with their weight".into(),
+            "sample weights are dyadic (0.5, 1, 2, 4) so class weights, modes and the min_weight_leaf comparison are exact".into(),
+            format!("a reported impurity decrease must match the decrease recomputed in f64 from the rows routed to the node within {} (linfa accumulates in f32); reported >= min_impurity_decrease is compared exactly in the element type", oracle::TOL_F32),
+            format!("importances: each finite and >= 0, sum = 1 +- {}, each within {} of the normalised mean reported decrease per feature; judged only when the tree has a split", oracle::TOL_SUM, oracle::TOL_F32),
+            "fit-time routing is not observable directly: training rows are routed with the prediction rule (x[f] < split goes left) and every per-node statistic must hold on those row sets".into(),
+            "a query row lying exactly on a threshold may be predicted as either side (the statement fixes the side only for training rows)".into(),
+            "failures below a node whose threshold equals a training value reaching it AND is the rounded midpoint of two neighbouring floats of that column are reported under the single signature route:midpoint-rounded-onto-training-value; everything else keeps its own signature".into(),
+            "trusted base: ndarray, the harness' own routing/impurity code".into(),
+        ],
+        subs: vec![
+            prop_sub("grid", 120000, 1500000, |t: Tier| case_strategy(Family::Grid, t), check)
+                .chunks(16)
+                .require(&["splits_2plus", "leaf_weighted_tie", "duplicates_conflicting_labels", "max_depth_none", "max_depth_0"]),
+            prop_sub("adjacent_finite", 40000, 500000, |t: Tier| case_strategy(Family::AdjFinite, t), check)
+                .chunks(16)
+                .require(&["adjacent_floats", "threshold_equals_training_value"]),
+            // max_depth(None) on consecutive floats can recurse without bound inside fit (stack overflow kills
+            // the worker): one case per child process, so a crash costs exactly that case
+            prop_sub("adjacent_unbounded", 48, 480, |t: Tier| case_strategy(Family::AdjUnbounded, t), check).chunks(480),
+            enum_sub(
+                "enum_grid",
+                |t: Tier| enumerate(Col::Grid { quarters: 4 }, 3, 3, t.pick(4, 5), &[None, Some(1), Some(2), None, Some(0)], true),
+                check,
+            ),
+            enum_sub(
+                "enum_adjacent",
+                |t: Tier| {
+                    let mut v = enumerate(Col::Adj { base: 1 }, 4, 2, t.pick(4, 5), &[Some(3), Some(1), Some(6)], true);
+                    v.extend(enumerate(Col::Adj { base: 2 }, 6, 2, t.pick(3, 4), &[Some(2), Some(4)], true));
+                    v
+                },
+                check,
+            ),
+        ],
+    }
 }
